@@ -99,13 +99,8 @@ let call_finish r =
   Printf.printf "OBS %s %sO %s\n" r.id r.pre (if is_none r.st.panic then str_outcome r.st.result else "-")
 
 let parse_scfg gg tokens =
-  let rev = kv tokens "ord" "f" = "r" in
-  { sc_n = List.length gg.fg_nodes |> nat_of_int;
-    sc_es = (if rev then gg.fg_struct_rev else gg.fg_struct);
-    sc_counts = (if rev then gg.fg_outgoing else gg.fg_incoming);
-    sc_strat = parse_strat (kv tokens "strat" "non");
-    sc_interruptible = (kv tokens "int" "0" = "1");
-    sc_drain = (try Sys.getenv "FG_STREAM_DRAIN" <> "0" with Not_found -> true) }
+  mk_scfg gg (kv tokens "ord" "f" = "r") (parse_strat (kv tokens "strat" "non")) (kv tokens "int" "0" = "1")
+    (try Sys.getenv "FG_STREAM_DRAIN" <> "0" with Not_found -> true)
 
 let stream_run id pre sc events =
   let st = ref (sinit sc) in
